@@ -72,7 +72,15 @@ def selb(b):
 def sel(i, n):
     """concrete value of selector i known to be in range(n)"""
     # a list of 1-tuples: indexing a list of plain ints may yield a *symbolic* element
-    # (CrossHair models it as an array select); boxed elements force one branch per value
+    # (CrossHair models it as an array select); boxed elements force one branch per value.
+    # The cost of one indexing grows with the length of the list (measured: 200 values, 40 s
+    # direct, 11 s as two base-16 digits), so large ranges are split into digits.
+    if n > 24:
+        return _small(i // 16, (n + 15) // 16) * 16 + _small(i % 16, 16)
+    return _small(i, n)
+
+
+def _small(i, n):
     r = _RANGES.get(n)
     if r is None:
         r = _RANGES[n] = [(v,) for v in range(n)]
